@@ -199,6 +199,15 @@ def gen_cases(tier, rng):
                 s = rng.randrange(10 ** 9)
                 for fn in ("uniform", "uniform_dataset"):
                     out.append({"fn": fn, "n": n, "m": m, "steps": 0, "complete": 1, "seed": s})
+    # beyond the grid: many rankings (257+), a few more elements
+    for m in (257, 300):
+        for n in (2, 3):
+            for c in (0, 1):
+                for fn in ("generate_rankings", "markov_dataset"):
+                    out.append({"fn": fn, "n": n, "m": m, "steps": 3, "complete": c, "seed": rng.randrange(10 ** 9)})
+            for fn in ("uniform", "uniform_dataset"):
+                out.append({"fn": fn, "n": n, "m": m, "steps": 0, "complete": 1, "seed": rng.randrange(10 ** 9)})
+    rng.shuffle(out)          # requested sizes go up AND down inside one worker process
     return out
 
 
